@@ -107,6 +107,12 @@ class Taint:
                         tgt, value, idx = b
                         if kind == "for" and isinstance(value, ast.Call) and norm(value.func) == "enumerate" and idx == 0:
                             continue      # the index of enumerate() is an int made by the agent
+                        if value is not None and isinstance(idx, int):
+                            part = self._tuple_part(value, idx, f, b2)
+                            if part is not None:
+                                if part:
+                                    return True
+                                continue
                         if value is not None and self.tainted(value, f, b2):
                             return True
                     elif kind == "ann" and b.value is not None and self.tainted(b.value, f, b2):
@@ -114,6 +120,29 @@ class Taint:
                 return False
             f = f.parent
         return False
+
+    def _tuple_part(self, value, idx, f, busy):
+        """Taint of element idx of a tuple-valued expression when its shape is known (None: unknown)."""
+        if isinstance(value, ast.Tuple):
+            if idx < len(value.elts) and not any(isinstance(x, ast.Starred) for x in value.elts):
+                return self.tainted(value.elts[idx], f, busy)
+            return None
+        if isinstance(value, ast.Call):
+            tg = self.t.resolve_call(value, f)
+            if tg.repo and not tg.by_name and not tg.ext and not tg.unknown:
+                res = False
+                for g in tg.repo:
+                    rets = [r for r in self.t.nodes_in(g, ast.Return)]
+                    if not rets:
+                        return None
+                    for r in rets:
+                        if not isinstance(r.value, ast.Tuple) or idx >= len(r.value.elts) or \
+                                any(isinstance(x, ast.Starred) for x in r.value.elts):
+                            return None
+                        if self.tainted(r.value.elts[idx], g, busy):
+                            res = True
+                return res
+        return None
 
     def _field(self, e: ast.Attribute, fi: FuncInfo) -> bool:
         bt = self.t.type_of(e.value, fi)
@@ -150,6 +179,9 @@ class Taint:
         tg = self.t.resolve_call(e, fi)
         if any(x in ("builtins.eval",) for x in tg.ext):
             return True
+        if "builtins.getattr" in tg.ext and len(e.args) >= 2 and isinstance(e.args[1], ast.Constant) \
+                and e.args[1].value in SOURCE_ATTRS:
+            return True     # getattr(frame, 'f_globals', None) is the same source as frame.f_globals
         if any(x in CLEAN_CALLS for x in tg.ext):
             return False
         if any(x in CARRY_CALLS for x in tg.ext):
@@ -275,6 +307,38 @@ class Taint:
                 for v in n.values:
                     if isinstance(v, ast.FormattedValue) and T(v.value):
                         out.append(Op(fi, n, "format", v.value))
-            elif isinstance(n, ast.Delete):
-                pass
+            # truth value of a host value: runs its __bool__ / __len__ and makes what follows depend on its content
+            tests = []
+            if isinstance(n, (ast.If, ast.While, ast.IfExp, ast.Assert)):
+                tests.append(n.test)
+            elif isinstance(n, ast.comprehension):
+                tests.extend(n.ifs)
+            elif isinstance(n, ast.BoolOp):
+                par = self.p.parent_of(n)
+                in_test = isinstance(par, (ast.If, ast.While, ast.IfExp, ast.Assert)) and par.test is n or \
+                    isinstance(par, (ast.BoolOp, ast.UnaryOp)) or (isinstance(par, ast.comprehension) and n in par.ifs)
+                if not in_test:
+                    tests.extend(n.values[:-1])     # `a or b` as a value: every operand but the last is truth-tested
+            elif isinstance(n, ast.UnaryOp) and isinstance(n.op, ast.Not):
+                par = self.p.parent_of(n)
+                in_test = isinstance(par, (ast.If, ast.While, ast.IfExp, ast.Assert)) and par.test is n or \
+                    isinstance(par, (ast.BoolOp, ast.UnaryOp)) or (isinstance(par, ast.comprehension) and n in par.ifs)
+                if not in_test:
+                    tests.append(n.operand)
+            for tst in tests:
+                for leaf in _truth_leaves(tst):
+                    if T(leaf):
+                        out.append(Op(fi, leaf, "truth", leaf))
         return out
+
+
+def _truth_leaves(e):
+    if isinstance(e, ast.BoolOp):
+        for v in e.values:
+            yield from _truth_leaves(v)
+    elif isinstance(e, ast.UnaryOp) and isinstance(e.op, ast.Not):
+        yield from _truth_leaves(e.operand)
+    elif isinstance(e, (ast.Compare, ast.Constant)):
+        return
+    else:
+        yield e
